@@ -111,7 +111,7 @@ def run_shard(desc):
             built[sk['name']] = build_session(sk)
         nb, neg = built[sk['name']]
         recv_ap = {(int(a), int(s)) for (a, s), v in neg.addpath._receive.items() if v}
-        s = {'asn4': sk['asn4'], 'addpath': recv_ap, 'ibgp': sk['ibgp']}
+        s = {'asn4': sk['asn4'], 'addpath': recv_ap, 'ibgp': sk['ibgp'], 'enh': bool(neg.nexthop)}
         if bool(neg.asn4) != sk['asn4']:
             res.inconclusive.append(f'session {sk["name"]}: negotiated asn4={neg.asn4}')
             continue
@@ -135,6 +135,8 @@ def run_shard(desc):
             continue
         # --- the real decode + JSON event
         kind = intent.get('kind') or ('eor' if intent['eor'] else '?')
+        if intent.get('enh'):
+            res.count('ipv4-family-with-ipv6-nexthop')
         nbucket = 'many' if len(intent['announce']) + len(intent['withdraw']) > 3 else 'few'
         cls = f'{sk["name"]}:{kind}'
         try:
